@@ -251,6 +251,28 @@ Proof.
   - rewrite H4. replace (p - length (sseen s)) with 0 by lia. simpl. lia.
 Qed.
 
+(* progress: every worker step consumes or forwards one of the finitely many items of its stream *)
+Definition seg_m (L : nat) (s : seg) : nat := 2 * (L - length (sseen s)) + match sphase s with PProd _ => 1 | _ => 0 end.
+Lemma wstep_measure : forall cap sg X p q i sg' q', pipe_ok X p sg -> wstep cap sg q i = Some (sg', q') ->
+  tot (seg_m (length X)) sg' < tot (seg_m (length X)) sg.
+Proof.
+  intros cap. induction sg as [|s rest IH]; intros X p q i sg' q' H Hs; simpl in Hs; [discriminate|].
+  rewrite pipe_ok_cons in H. destruct H as (H1 & H2 & H3 & H4 & H5 & H6).
+  destruct i as [|j].
+  - destruct (sphase s) as [|y|] eqn:Eph.
+    + destruct (sq s) as [|x q1] eqn:Eq; [discriminate|]. injection Hs as <- <-.
+      symmetry in H4. destruct (firstn_skipn_cons _ X _ _ _ _ Empty H4) as (A & B & _ & _).
+      simpl. unfold seg_m at 1 3. simpl. rewrite Eph, app_length. simpl. lia.
+    + destruct rest as [|s2 rest2].
+      * destruct (length q <? cap); [|discriminate]. injection Hs as <- <-. simpl. unfold seg_m, after_produce. simpl. rewrite Eph.
+        destruct (is_cpoison y); simpl; lia.
+      * destruct (length (sq s2) <? cap); [|discriminate]. injection Hs as <- <-. simpl. unfold seg_m, after_produce. simpl. rewrite Eph.
+        destruct (is_cpoison y); simpl; lia.
+    + discriminate.
+  - destruct (wstep cap rest q j) as [[rest' q1]|] eqn:E; [|discriminate]. injection Hs as <- <-.
+    specialize (IH _ _ _ _ _ _ H6 E). rewrite map_length in IH. simpl. lia.
+Qed.
+
 (* ------------------------------------------------------------------------------------------- *)
 Section ChainInv.
 Variable b : nat.                    (* block_count = capacity of every queue *)
@@ -317,7 +339,7 @@ Proof. intros [|s rest] y; reflexivity. Qed.
 
 Ltac cfields := cbn [q0 sphs srest segs mainp].
 
-Lemma chain_step_inv : forall c t c', KInv c -> cstep b c t = Some c' -> KInv c'.
+Lemma chain_step_inv : forall c t c', KInv c -> chain_step b c t = Some c' -> KInv c'.
 Proof.
   intros c t c' HK Hs. pose proof (segs_ne c HK) as Hne. pose proof HK as [[done K1] K2 K3 K4 K5 K6].
   destruct t as [|i|]; simpl in Hs.
@@ -394,13 +416,13 @@ Proof.
       * constructor; cfields; auto; try solve [exists done; exact K1]; try solve [unfold src_p in *; cfields; exact K3]; try solve [discriminate].
 Qed.
 
-Lemma chain_run_none : forall sched, fold_left (fun o t => match o with Some x => cstep b x t | None => None end) sched None = None.
+Lemma chain_run_none : forall sched, fold_left (fun o t => match o with Some x => chain_step b x t | None => None end) sched None = None.
 Proof. induction sched; simpl; auto. Qed.
 Lemma chain_reach_inv : forall sched c c', KInv c -> chain_run b sched c = Some c' -> KInv c'.
 Proof.
   induction sched as [|t sched IH]; intros c c' HI Hr; unfold chain_run in Hr; simpl in Hr.
   - injection Hr as <-. exact HI.
-  - destruct (cstep b c t) as [c1|] eqn:E; [|rewrite chain_run_none in Hr; discriminate].
+  - destruct (chain_step b c t) as [c1|] eqn:E; [|rewrite chain_run_none in Hr; discriminate].
     apply (IH c1); [eapply chain_step_inv; eassumption|exact Hr].
 Qed.
 Definition chain_reachable (c : chain) : Prop := exists sched, chain_run b sched (chain_init b payloads fs) = Some c.
@@ -456,7 +478,7 @@ Proof.
 Qed.
 
 (* no deadlock: until Wait has returned some thread can step *)
-Theorem chain_no_deadlock : forall c, chain_reachable c -> mainp c <> MDone -> exists t c', cstep b c t = Some c'.
+Theorem chain_no_deadlock : forall c, chain_reachable c -> mainp c <> MDone -> exists t c', chain_step b c t = Some c'.
 Proof.
   intros c H Hm. pose proof (chain_reachable_inv c H) as HK. pose proof (segs_ne c HK) as Hne.
   pose proof HK as [[done K1] K2 K3 K4 K5 K6].
@@ -487,4 +509,42 @@ Proof.
     destruct (q0 c) as [|x q']; [destruct Hin|]. destruct x; eauto.
   - destruct K5.
 Qed.
+
+Definition chain_measure (c : chain) : nat :=
+  2 * length (srest c) + match sphs c with SCons => 2 | SProd => 1 | SDone => 0 end +
+  tot (seg_m (length X0)) (segs c) +
+  match mainp c with MJoin => b + 2 | MDrain n => b + 1 - n | _ => 0 end.
+
+Theorem chain_progress : forall c t c', KInv c -> chain_step b c t = Some c' -> chain_measure c' < chain_measure c.
+Proof.
+  intros c t c' HK Hs. pose proof HK as [[done K1] K2 K3 K4 K5 K6]. unfold chain_measure.
+  destruct t as [|i|]; simpl in Hs.
+  - destruct (sphs c) eqn:Eph; [| |discriminate].
+    + destruct (q0 c); [discriminate|]. injection Hs as <-. simpl. lia.
+    + destruct (segs c) as [|s1 rest] eqn:Es; [discriminate|]. destruct (length (sq s1) <? b); [|discriminate].
+      destruct (srest c) as [|p r]; injection Hs as <-; simpl; unfold seg_m; simpl; lia.
+  - destruct (wstep b (segs c) (q0 c) i) as [[sg' q']|] eqn:Ew; [|discriminate]. injection Hs as <-.
+    pose proof (wstep_measure _ _ _ _ _ _ _ _ K3 Ew). simpl. lia.
+  - destruct (mainp c) as [|n| |] eqn:Em; try discriminate.
+    + destruct (sphs c); try discriminate. destruct (all_done (segs c)); [|discriminate]. injection Hs as <-. simpl. lia.
+    + destruct K5 as (_ & _ & Hn & _). destruct (q0 c) as [|x q']; [discriminate|]. simpl in Hn.
+      destruct x; injection Hs as <-; simpl; try lia; destruct (n =? b) eqn:E; simpl; try lia; apply Nat.eqb_eq in E; lia.
+Qed.
+
+Theorem chain_schedules_bounded : forall sched c, chain_run b sched (chain_init b payloads fs) = Some c ->
+  length sched + chain_measure c <= chain_measure (chain_init b payloads fs).
+Proof.
+  assert (G : forall sched c0 c, KInv c0 -> chain_run b sched c0 = Some c -> length sched + chain_measure c <= chain_measure c0).
+  { induction sched as [|t sched IH]; intros c0 c HI Hr; unfold chain_run in Hr; simpl in Hr.
+    - injection Hr as <-. simpl. lia.
+    - destruct (chain_step b c0 t) as [c1|] eqn:E; [|rewrite chain_run_none in Hr; discriminate].
+      pose proof (chain_progress _ _ _ HI E). pose proof (IH c1 c (chain_step_inv _ _ _ HI E) Hr). simpl. lia. }
+  intros sched c H. apply G; [apply chain_init_inv|exact H].
+Qed.
 End ChainInv.
+
+Example chain_example :
+  exists c, chain_run 2 [TSrc; TSrc; TSrc; TW 0; TSrc; TW 0; TW 1; TW 0; TW 1; TSrc; TSrc; TW 0; TW 1; TW 1; TW 0; TW 0; TW 1; TW 1; TMain; TMain; TMain]
+              (chain_init 2 [[1; 2]; [3]] [map (fun x => x + 10); (fun p => p)]) = Some c /\
+            mainp c = MDone /\ sink_seen c = [[11; 12]; [13]].
+Proof. eexists. split; [vm_compute; reflexivity|]. split; reflexivity. Qed.
